@@ -9,6 +9,9 @@ use crossbeam_channel::{Receiver, Sender};
 
 use futures::future::BoxFuture;
 
+#[cfg(crux_verif)]
+use crate::verif::sync::atomic::AtomicBool;
+#[cfg(not(crux_verif))]
 use std::sync::atomic::AtomicBool;
 
 use futures::task::AtomicWaker;
